@@ -5,10 +5,11 @@
    counter); with append the newest file - the last one of the directory - is continued under its old name, even if its time
    stamp is older than the present second; a run without a write changes nothing.
 
-   A real finding on the way (tsd_utc_append_reorders): with append AND use_utc AND a zone offset <> 0 the time stamp read
-   back from the newest file name is taken for local time, the writer starts a file whose time stamp is shifted by the offset
-   and the order of the names is no longer the order of writing.  The theorems therefore ask, for the runs with append,
-   for (use_utc = false or offset = 0). *)
+   A real finding on the way, since repaired in the code (fix: "TimestampsDirect with append and use_utc reads the newest time
+   stamp back as UTC"): with append AND use_utc AND a zone offset <> 0 the time stamp read back from the newest file name was
+   taken for local time, the writer started a file whose time stamp was shifted by the offset and the order of the names was no
+   longer the order of writing.  The theorems asked, for the runs with append, for (use_utc = false or offset = 0); with the
+   repair they hold for every offset (tsd_utc_append_fine is the former counterexample). *)
 Require Import FL.Base.Bytes FL.Base.BytesFacts FL.Base.PathName FL.Fs.Fs FL.Fs.FsFacts FL.Time.Civil FL.Time.TsFormat
   FL.Names.FileSpec FL.Names.NamesFacts FL.Names.SortFacts FL.Flw.Model FL.Flw.ModelFacts FL.Flw.NumFs FL.Flw.NumInv FL.Flw.Run
   FL.Flw.RunFacts FL.Flw.NumRun FL.Oracles.O_Flw FL.Flw.NumTheorems FL.Flw.NumListing FL.Flw.NumRestart
@@ -262,11 +263,11 @@ Proof.
 Qed.
 
 (* ------------------------------------------------------------------ the first write of a writer *)
-(* the hypothesis for a writer with append (TsdRestartInv.append_ok), in terms of the zone offset *)
-Definition aok (c : config) (e off : Z) : Prop := c_append c = true -> off = e /\ probe_ok c.
+(* the hypothesis for a writer with append (TsdRestartInv.append_ok) *)
+Definition aok (c : config) : Prop := append_ok c.
 
 Lemma first_write_td c crit e off lo hi n x d b :
-  tsdcfg c crit -> tag_ok c -> years_ok e lo hi -> aok c e off -> PreTd c e off lo n x d ->
+  tsdcfg c crit -> tag_ok c -> years_ok e lo hi -> aok c -> PreTd c e off lo n x d ->
   (wnow (s_w x) <= hi)%Z -> (N.of_nat (S n) <= usize_max)%N ->
   exists w' s' rot D', write_buffer (new_flw c) (s_w x) b = (Ok tt, w', s', rot)
     /\ ActTd c e off lo (S n) {| s_flw := Some s'; s_w := w'; s_tl := []; s_dead := s_dead x |} (Some D')
@@ -286,7 +287,7 @@ Proof.
             /\ (c_append c = false -> FreshD d (Some (keys1, closed1, cur_view w1 wr1)))).
   { destruct d as [[[keys closed] cur]|]; cbn [dir_tsd closedD] in D, Hn.
     - destruct D as [wr [I [Hp V]]]. pose proof (td_len _ _ _ _ _ _ _ I) as Hlen.
-      assert (Hao' : append_ok c e (s_w x)) by (intros H; destruct (Hao H) as [H1 H2]; split; [congruence | exact H2]).
+      pose proof Hao as Hao'.
       destruct (initialize_view_tsd c crit e lo hi (s_w x) wr keys closed Hcfg T Y I Hp Hhi ltac:(lia) Hao')
         as [w1 [wr1 [roll1 [keys1 [closed1 [Ei [I1 [S1 [Z1 V1]]]]]]]]].
       exists w1, wr1, roll1, keys1, closed1. split; [exact Ei|]. split; [exact I1|]. split; [exact S1|]. split; [exact Z1|].
@@ -335,7 +336,7 @@ Proof.
 Qed.
 
 Lemma gstep_td c crit e off lo hi n x d0 a o :
-  tsdcfg c crit -> tag_ok c -> years_ok e lo hi -> aok c e off -> GRelTd c e off lo n x d0 a -> basic_op o -> tick_ok o ->
+  tsdcfg c crit -> tag_ok c -> years_ok e lo hi -> aok c -> GRelTd c e off lo n x d0 a -> basic_op o -> tick_ok o ->
   (wnow (s_w x) <= hi)%Z -> (N.of_nat (S n) <= usize_max)%N ->
   exists a', GRelTd c e off lo (S n) (fst (step x o)) d0 a' /\ ExtD (gviewD d0 a) (gviewD d0 a')
     /\ flatD (gviewD d0 a') = flatD (gviewD d0 a) ++ written [o]
@@ -378,7 +379,7 @@ Proof.
       split; [repeat split; try assumption; apply Q|]. split; [exact Es|]. split; [exact D | lia].
 Qed.
 
-Lemma grun_td c crit e off lo hi d0 : tsdcfg c crit -> tag_ok c -> years_ok e lo hi -> aok c e off ->
+Lemma grun_td c crit e off lo hi d0 : tsdcfg c crit -> tag_ok c -> years_ok e lo hi -> aok c ->
   forall ops x a n, GRelTd c e off lo n x d0 a -> Forall basic_op ops -> Forall tick_ok ops ->
   (wnow (s_w x) + elapsed ops <= hi)%Z -> (N.of_nat (n + length ops) <= usize_max)%N ->
   exists a', GRelTd c e off lo (n + length ops) (fst (run x ops)) d0 a' /\ ExtD (gviewD d0 a) (gviewD d0 a')
@@ -446,7 +447,7 @@ Qed.
 
 (* ---- one whole run, after the clock has advanced by dt ---- *)
 Lemma one_run_td c crit e off lo hi n x d dt ops :
-  tsdcfg c crit -> tag_ok c -> years_ok e lo hi -> aok c e off -> IdleTd c e off lo n x d -> (0 <= dt)%Z ->
+  tsdcfg c crit -> tag_ok c -> years_ok e lo hi -> aok c -> IdleTd c e off lo n x d -> (0 <= dt)%Z ->
   Forall basic_op ops -> Forall tick_ok ops ->
   (wnow (s_w x) + elapsed (run_t dt c ops) <= hi)%Z -> (N.of_nat (n + length (run_t dt c ops)) <= usize_max)%N ->
   exists d', IdleTd c e off lo (n + length (run_t dt c ops)) (fst (run x (run_t dt c ops))) d'
@@ -478,28 +479,28 @@ Qed.
 (* ------------------------------------------------------------------ sequences of runs *)
 (* histories as for Timestamps naming (TsRestart.trun, runs_ops_t, runs_written_t): before each run the clock advances by
    dt >= 0.  Every run: the same file spec, the same choice of use_utc; its own criterion, buffer capacity and append flag.
-   A run with append: use_utc is off or the zone offset is 0, and the infix is found in the names (probe_ok; for instance by
+   A run with append: the infix is found in the names (probe_ok; for instance by
    TsdRestartInv.probe_free_ok) *)
 Definition cfg_of (r : trun) : config := snd (fst r).
-Definition run_ok_tsd (sp : file_spec) (utc : bool) (off : Z) (r : trun) : Prop :=
+Definition run_ok_tsd (sp : file_spec) (utc : bool) (r : trun) : Prop :=
   let '(dt, c, ops) := r in
   (0 <= dt)%Z /\ c_spec c = sp /\ c_utc c = utc /\ (exists crit, tsdcfg c crit) /\ tag_ok c
   /\ Forall basic_op ops /\ Forall tick_ok ops
-  /\ (c_append c = true -> (utc = false \/ off = 0%Z) /\ probe_ok c).
+  /\ (c_append c = true -> probe_ok c).
 
-Lemma run_ok_tsd_elim sp utc off dt c ops : run_ok_tsd sp utc off (dt, c, ops) ->
+Lemma run_ok_tsd_elim sp utc dt c ops : run_ok_tsd sp utc (dt, c, ops) ->
   (0 <= dt)%Z /\ c_spec c = sp /\ c_utc c = utc /\ (exists crit, tsdcfg c crit) /\ tag_ok c
   /\ Forall basic_op ops /\ Forall tick_ok ops
-  /\ (c_append c = true -> (utc = false \/ off = 0%Z) /\ probe_ok c).
+  /\ (c_append c = true -> probe_ok c).
 Proof. exact (fun H => H). Qed.
 
-Lemma run_ok_tsd_intro sp utc off dt c ops :
+Lemma run_ok_tsd_intro sp utc dt c ops :
   (0 <= dt)%Z /\ c_spec c = sp /\ c_utc c = utc /\ (exists crit, tsdcfg c crit) /\ tag_ok c
   /\ Forall basic_op ops /\ Forall tick_ok ops
-  /\ (c_append c = true -> (utc = false \/ off = 0%Z) /\ probe_ok c) -> run_ok_tsd sp utc off (dt, c, ops).
+  /\ (c_append c = true -> probe_ok c) -> run_ok_tsd sp utc (dt, c, ops).
 Proof. exact (fun H => H). Qed.
 
-Lemma runs_elapsed_nonneg_tsd sp utc off rs : Forall (run_ok_tsd sp utc off) rs -> (0 <= elapsed (runs_ops_t rs))%Z.
+Lemma runs_elapsed_nonneg_tsd sp utc rs : Forall (run_ok_tsd sp utc) rs -> (0 <= elapsed (runs_ops_t rs))%Z.
 Proof.
   induction 1 as [|[[dt c] ops] r Hok _ IH]; cbn [runs_ops_t elapsed]; [lia|].
   apply run_ok_tsd_elim in Hok. destruct Hok as [Hdt [_ [_ [_ [_ [_ [Htk _]]]]]]].
@@ -510,7 +511,7 @@ Qed.
 Definition no_append (r : trun) : Prop := c_append (cfg_of r) = false.
 
 Lemma runs_rel_td sp (utc : bool) off lo hi : let e := (if utc then 0 else off)%Z in years_ok e lo hi ->
-  forall rs x d c0 n, c_spec c0 = sp -> c_utc c0 = utc -> Forall (run_ok_tsd sp utc off) rs -> IdleTd c0 e off lo n x d ->
+  forall rs x d c0 n, c_spec c0 = sp -> c_utc c0 = utc -> Forall (run_ok_tsd sp utc) rs -> IdleTd c0 e off lo n x d ->
   (wnow (s_w x) + elapsed (runs_ops_t rs) <= hi)%Z -> (N.of_nat (n + length (runs_ops_t rs)) <= usize_max)%N ->
   exists d', IdleTd c0 e off lo (n + length (runs_ops_t rs)) (fst (run x (runs_ops_t rs))) d'
     /\ ExtD d d' /\ flatD d' = flatD d ++ runs_written_t rs
@@ -523,11 +524,10 @@ Proof.
   - inversion Hrs as [|r0 r' Hok Hr]; subst. apply run_ok_tsd_elim in Hok.
     destruct Hok as [Hdt [Ec [Eu [[crit Hcfg] [T [Hb [Htk Hap]]]]]]].
     cbn [runs_ops_t runs_written_t] in *. rewrite elapsed_app in Hhi. rewrite app_length in Hmax.
-    pose proof (runs_elapsed_nonneg_tsd _ _ _ r Hr) as Er.
+    pose proof (runs_elapsed_nonneg_tsd _ _ r Hr) as Er.
     assert (Id' : IdleTd c e off lo n x d) by (apply (idleTd_spec c0 c); congruence).
-    assert (Hao : aok c e off).
-    { intros Ha. destruct (Hap Ha) as [Hu P]. split; [|exact P]. unfold e.
-      destruct Hu as [Hu|Hu]; rewrite Hu; [reflexivity | destruct (c_utc c0); reflexivity]. }
+    assert (Hao : aok c).
+    { exact Hap. }
     destruct (one_run_td c crit e off lo hi n x d dt ops Hcfg T Y Hao Id' Hdt Hb Htk ltac:(lia) ltac:(lia)) as [d1 [Id1 [X1 [F1 [W1 K1]]]]].
     rewrite fst_run_app. set (x1 := fst (run x (run_t dt c ops))) in *.
     assert (Id1' : IdleTd c0 e off lo (n + length (run_t dt c ops)) x1 d1) by (apply (idleTd_spec c c0); congruence).
@@ -572,7 +572,7 @@ Qed.
    - keys_ok keys: over the WHOLE history the keys are pairwise distinct and strictly increasing in the order of creation
      (keys_ok_order, ts_names_distinct in TsTheorems.v, tsd_view_names): no file name is used twice, across runs too. *)
 Theorem timestampsdirect_restarts sp utc t0 off rs :
-  Forall (run_ok_tsd sp utc off) rs ->
+  Forall (run_ok_tsd sp utc) rs ->
   let e := if utc then 0%Z else off in
   (0 <= t0 + e)%Z -> (t0 + elapsed (runs_ops_t rs) + e < sec_max)%Z -> (N.of_nat (length (runs_ops_t rs)) <= usize_max)%N ->
   let f := wfs (s_w (fst (run (sys0 t0 off) (runs_ops_t rs)))) in
@@ -599,7 +599,7 @@ Print Assumptions timestampsdirect_restarts.
    content of before, the last one - the newest file - has at most been continued (by a run with append); further files follow.
    If no run of rs2 has append, the last file is untouched, too: files2 = files1 ++ more. *)
 Theorem timestampsdirect_restarts_keep sp utc t0 off rs1 rs2 :
-  Forall (run_ok_tsd sp utc off) (rs1 ++ rs2) ->
+  Forall (run_ok_tsd sp utc) (rs1 ++ rs2) ->
   let e := if utc then 0%Z else off in
   (0 <= t0 + e)%Z -> (t0 + elapsed (runs_ops_t (rs1 ++ rs2)) + e < sec_max)%Z ->
   (N.of_nat (length (runs_ops_t (rs1 ++ rs2))) <= usize_max)%N ->
@@ -621,7 +621,7 @@ Proof.
   { induction a as [|[[dt c] ops] r IH]; intros b; [reflexivity|]. cbn [app runs_ops_t]. rewrite IH, app_assoc. reflexivity. }
   assert (RW : forall a b, runs_written_t (a ++ b) = runs_written_t a ++ runs_written_t b).
   { induction a as [|[[dt c] ops] r IH]; intros b; [reflexivity|]. cbn [app runs_written_t]. rewrite IH, app_assoc. reflexivity. }
-  pose proof (runs_elapsed_nonneg_tsd sp utc off) as EN.
+  pose proof (runs_elapsed_nonneg_tsd sp utc) as EN.
   unfold f2. rewrite RA in *. rewrite elapsed_app in Hhi. rewrite app_length in Hmax.
   pose proof (EN rs1 Hrs1) as E1. pose proof (EN rs2 Hrs2) as E2.
   set (hi := (t0 + (elapsed (runs_ops_t rs1) + elapsed (runs_ops_t rs2)))%Z).
@@ -652,7 +652,7 @@ Print Assumptions timestampsdirect_restarts_keep.
 
 (* no name twice: spelled out for the names; the order of creation is the strict order of (second, position) *)
 Theorem timestampsdirect_restarts_names sp utc t0 off rs :
-  Forall (run_ok_tsd sp utc off) rs ->
+  Forall (run_ok_tsd sp utc) rs ->
   let e := if utc then 0%Z else off in
   (0 <= t0 + e)%Z -> (t0 + elapsed (runs_ops_t rs) + e < sec_max)%Z -> (N.of_nat (length (runs_ops_t rs)) <= usize_max)%N ->
   let f := wfs (s_w (fst (run (sys0 t0 off) (runs_ops_t rs)))) in
@@ -674,7 +674,7 @@ Print Assumptions timestampsdirect_restarts_names.
 (* not reordered: the reader (Oracles/ReaderOrder.v: sorted by time stamp, then by restart counter) gets the files in the order
    in which they were written, over all runs; their concatenation is the stream of all runs *)
 Theorem timestampsdirect_restarts_reader sp utc t0 off rs c crit :
-  Forall (run_ok_tsd sp utc off) rs ->
+  Forall (run_ok_tsd sp utc) rs ->
   let e := if utc then 0%Z else off in
   (0 <= t0 + e)%Z -> (t0 + elapsed (runs_ops_t rs) + e < sec_max)%Z -> (N.of_nat (length (runs_ops_t rs)) <= usize_max)%N ->
   c_spec c = sp -> tsdcfg c crit -> not_gz c ->
@@ -717,7 +717,7 @@ Qed.
 (* after any history: one more run (any configuration of this naming, any append flag) that flushes, triggers rotations,
    lets the clock advance, but does not write, leaves the directory as it is *)
 Theorem timestampsdirect_run_without_write sp utc t0 off rs dt c crit ops :
-  Forall (run_ok_tsd sp utc off) rs ->
+  Forall (run_ok_tsd sp utc) rs ->
   let e := if utc then 0%Z else off in
   (0 <= t0 + e)%Z -> (t0 + elapsed (runs_ops_t rs) + e < sec_max)%Z -> (N.of_nat (length (runs_ops_t rs)) <= usize_max)%N ->
   tsdcfg c crit -> Forall no_write_op ops ->
@@ -798,7 +798,7 @@ Proof. apply tag_free_ok. split; vm_compute; reflexivity. Qed.
 Lemma rsd_cfg_probe_ok app crit cap : probe_ok (rsd_cfg app crit cap).
 Proof. apply probe_free_ok. vm_compute. reflexivity. Qed.
 
-Lemma rsd_ex_ok : Forall (run_ok_tsd rsd_sp false 0) rsd_ex.
+Lemma rsd_ex_ok : Forall (run_ok_tsd rsd_sp false) rsd_ex.
 Proof.
   unfold rsd_ex.
   repeat (apply Forall_cons;
@@ -806,7 +806,7 @@ Proof.
            split; [eexists; apply tsd_cfg_ok; reflexivity|]; split; [apply rsd_cfg_tag_ok|];
            split; [repeat constructor|];
            split; [repeat (apply Forall_cons; [cbn [tick_ok]; first [exact Logic.I | lia]|]); apply Forall_nil|];
-           intros _; split; [left; reflexivity | apply rsd_cfg_probe_ok]|]).
+           intros _; apply rsd_cfg_probe_ok|]).
   apply Forall_nil.
 Qed.
 
@@ -852,7 +852,7 @@ Example tsd_restarts_fresh_instance :
        tsd_view c 0 (wfs (s_w (fst (run (sys0 0 0) (runs_ops_t (firstn 4 rsd_ex)))))) keys2 files2)
     /\ keys2 = keys1 ++ mk /\ files2 = files1 ++ more.
 Proof.
-  assert (Hok : Forall (run_ok_tsd rsd_sp false 0) (firstn 4 rsd_ex)) by (apply firstn_Forall; exact rsd_ex_ok).
+  assert (Hok : Forall (run_ok_tsd rsd_sp false) (firstn 4 rsd_ex)) by (apply firstn_Forall; exact rsd_ex_ok).
   change (firstn 4 rsd_ex) with (firstn 2 rsd_ex ++ firstn 2 (skipn 2 rsd_ex)) in Hok |- *.
   destruct (timestampsdirect_restarts_keep rsd_sp false 0 0 (firstn 2 rsd_ex) (firstn 2 (skipn 2 rsd_ex)) Hok)
     as [keys1 [files1 [keys2 [files2 [V1 [_ [V2 [_ [_ [_ X]]]]]]]]]];
@@ -875,39 +875,37 @@ Proof.
      | apply tsd_cfg_ok; reflexivity | vm_compute; reflexivity].
 Qed.
 
-(* ------------------------------------------------------------------ the hypotheses are needed *)
-(* A REAL FINDING.  use_utc, zone offset one hour, append.  The first writer (no append) names its files by UTC: "a", "b" in
-   <03:46:40>.  The second writer, with append, lists the directory and reads the newest time stamp back - as LOCAL time
-   (ts_from_infix), i.e. as the instant one hour earlier -, writes this instant as UTC again: it does not find "b" but starts
-   <02:46:40> for "c"; the rotation names "d" by the clock, <03:46:45>.  The third writer does the same with <03:46:45>:
-   "e" goes to <02:46:45>.  Nothing is lost and no name is used twice, but the files that should have been continued are not,
-   and a reader that goes by the names gets c, e, a, b, d, f: the records are REORDERED. *)
+(* ------------------------------------------------------------------ use_utc with a zone offset; the hypotheses are needed *)
+(* use_utc, zone offset one hour, append.  The first writer (no append) names its files by UTC: "a", "b" in <03:46:40>.  The
+   second writer, with append, lists the directory, reads the newest time stamp back - as UTC, the way it was written - and
+   continues "b"; the rotation names "d" by the clock, <03:46:45>, which the third writer continues.
+   (THE FORMER FINDING: the code read the time stamp back as LOCAL time, i.e. as the instant one hour earlier, wrote this instant
+   as UTC again, did not find "b" but started <02:46:40> for "c", and likewise <02:46:45> for "e": a reader that goes by the
+   names got c, e, a, b, d, f - the records were REORDERED; with a negative offset a, b, d, f, c, e.  Repaired in the code,
+   the model follows the repaired code.) *)
 Definition utc_app_ex (utc : bool) : list trun :=
   [ (0%Z, tsd_cfg rsd_sp false (CSize 100) None utc, [OWrite (bs "a"); OTrigger; OWrite (bs "b")]);
     (5%Z, tsd_cfg rsd_sp true (CSize 100) None utc, [OWrite (bs "c"); OTrigger; OWrite (bs "d")]);
     (5%Z, tsd_cfg rsd_sp true (CSize 100) None utc, [OWrite (bs "e"); OTrigger; OWrite (bs "f")]) ].
 
-Example tsd_utc_append_reorders :
+Example tsd_utc_append_fine :
   snap_of (fst (run (sys0 100000 3600) (runs_ops_t (utc_app_ex true))))
-  = [ (bs "app_r1970-01-02_02-46-40.log", 0%N, bs "c");
-      (bs "app_r1970-01-02_02-46-45.log", 0%N, bs "e");
-      (bs "app_r1970-01-02_03-46-40.log", 0%N, bs "a");
-      (bs "app_r1970-01-02_03-46-40.restart-0000.log", 0%N, bs "b");
-      (bs "app_r1970-01-02_03-46-45.log", 0%N, bs "d");
+  = [ (bs "app_r1970-01-02_03-46-40.log", 0%N, bs "a");
+      (bs "app_r1970-01-02_03-46-40.restart-0000.log", 0%N, bs "bc");
+      (bs "app_r1970-01-02_03-46-45.log", 0%N, bs "de");
       (bs "app_r1970-01-02_03-46-50.log", 0%N, bs "f") ]
   /\ family_in_order (tsd_cfg rsd_sp true (CSize 100) None true) (snap_of (fst (run (sys0 100000 3600) (runs_ops_t (utc_app_ex true)))))
-     = [bs "c"; bs "e"; bs "a"; bs "b"; bs "d"; bs "f"]
+     = [bs "a"; bs "bc"; bs "de"; bs "f"]
   /\ runs_written_t (utc_app_ex true) = bs "abcdef".
 Proof. repeat split; vm_compute; reflexivity. Qed.
 
-(* with a negative offset the shifted time stamps lie in the future: c and e sort behind f *)
-Example tsd_utc_append_reorders_west :
+(* the same with a negative offset *)
+Example tsd_utc_append_fine_west :
   family_in_order (tsd_cfg rsd_sp true (CSize 100) None true) (snap_of (fst (run (sys0 100000 (-3600)) (runs_ops_t (utc_app_ex true)))))
-  = [bs "a"; bs "b"; bs "d"; bs "f"; bs "c"; bs "e"].
+  = [bs "a"; bs "bc"; bs "de"; bs "f"].
 Proof. vm_compute. reflexivity. Qed.
 
-(* the same history with local time stamps (use_utc off), or with use_utc and the offset 0: as it should be - and covered by
-   the theorems *)
+(* the same history with local time stamps (use_utc off), or with use_utc and the offset 0 *)
 Example tsd_local_append_fine :
   snap_of (fst (run (sys0 100000 3600) (runs_ops_t (utc_app_ex false))))
   = [ (bs "app_r1970-01-02_04-46-40.log", 0%N, bs "a");
@@ -917,15 +915,15 @@ Example tsd_local_append_fine :
   /\ List.map snd (snap_of (fst (run (sys0 100000 0) (runs_ops_t (utc_app_ex true))))) = [bs "a"; bs "bc"; bs "de"; bs "f"].
 Proof. split; vm_compute; reflexivity. Qed.
 
-Lemma utc_app_ex_ok utc off : utc = false \/ off = 0%Z -> Forall (run_ok_tsd rsd_sp utc off) (utc_app_ex utc).
+Lemma utc_app_ex_ok utc : Forall (run_ok_tsd rsd_sp utc) (utc_app_ex utc).
 Proof.
-  intros H. unfold utc_app_ex.
+  unfold utc_app_ex.
   repeat (apply Forall_cons;
           [apply run_ok_tsd_intro; split; [lia|]; split; [reflexivity|]; split; [reflexivity|];
            split; [eexists; apply tsd_cfg_ok; reflexivity|]; split; [apply tag_free_ok; split; vm_compute; reflexivity|];
            split; [repeat constructor|];
            split; [repeat (apply Forall_cons; [cbn [tick_ok]; first [exact Logic.I | lia]|]); apply Forall_nil|];
-           intros _; split; [exact H | apply probe_free_ok; vm_compute; reflexivity]|]).
+           intros _; apply probe_free_ok; vm_compute; reflexivity|]).
   apply Forall_nil.
 Qed.
 
@@ -935,9 +933,22 @@ Example tsd_local_append_instance :
        tsd_view c 3600 (wfs (s_w (fst (run (sys0 100000 3600) (runs_ops_t (utc_app_ex false)))))) keys files)
     /\ concat files = bs "abcdef" /\ keys_ok keys.
 Proof.
-  destruct (timestampsdirect_restarts rsd_sp false 100000 3600 (utc_app_ex false) (utc_app_ex_ok false 3600 (or_introl eq_refl)))
+  destruct (timestampsdirect_restarts rsd_sp false 100000 3600 (utc_app_ex false) (utc_app_ex_ok false))
     as [keys [files [V [F [K _]]]]];
     [change (0 <= 103600)%Z; lia | change (100000 + 10 + 3600 < sec_max)%Z; unfold sec_max; lia | vm_compute; discriminate |].
+  exists keys, files. auto.
+Qed.
+
+(* the theorem covers use_utc with an offset now *)
+Example tsd_utc_append_instance :
+  exists keys files,
+    (forall c, c_spec c = rsd_sp ->
+       tsd_view c 0 (wfs (s_w (fst (run (sys0 100000 3600) (runs_ops_t (utc_app_ex true)))))) keys files)
+    /\ concat files = bs "abcdef" /\ keys_ok keys.
+Proof.
+  destruct (timestampsdirect_restarts rsd_sp true 100000 3600 (utc_app_ex true) (utc_app_ex_ok true))
+    as [keys [files [V [F [K _]]]]];
+    [change (0 <= 100000)%Z; lia | change (100000 + 10 + 0 < sec_max)%Z; unfold sec_max; lia | vm_compute; discriminate |].
   exists keys, files. auto.
 Qed.
 
